@@ -55,6 +55,7 @@ type envWorld struct {
 	mHdr          []byte
 	base          map[string]*envelopeParts
 	cids          []cid.Cid
+	rot           int
 }
 
 // envelopeParts is a decoded envelope that can be edited and re-assembled.
@@ -266,6 +267,36 @@ func otherHeader(h []byte) []byte {
 	return ed
 }
 
+// classes with several concrete representatives: a case that uses one is replayed once per representative
+var badCommands = []string{"nocmd", "/A/b", "/a/", "/a\u00c9", "/\u216b", "/a/\u24b6b", "", "a/b", "/a/b/"}
+var badDids = []string{"did:web:example.com", "did:key:", "", "did:key:zABC", "did:key:z6Mk", "key:z6MkpTHR8VNsBxYAAWHut2Geadd9jSwuBV8xRoAnwWsdvktH"}
+var shortNonces = []int{5, 1, 11}
+var badPolicies = []string{`[["xor", ".x", 1]]`, `[["==", "x", 1]]`, `[["like", ".x", "a\\"]]`, `[["and", ".x"]]`, `[["==", ".x"]]`, `{}`, `[["not", ["=="]]]`, `[[]]`}
+
+func repsOf(c envCase) int {
+	n := 1
+	for _, op := range c.Ops {
+		if op.Op != "set" {
+			continue
+		}
+		k := 1
+		switch {
+		case op.A == "cmd" && op.B == "bad":
+			k = len(badCommands)
+		case (op.A == "aud" || op.A == "sub") && op.B == "bad":
+			k = len(badDids)
+		case op.A == "nonce" && op.B == "short":
+			k = len(shortNonces)
+		case op.A == "pol" && op.B == "bad":
+			k = len(badPolicies)
+		}
+		if k > n {
+			n = k
+		}
+	}
+	return n
+}
+
 var bigU64 = basicnode.NewUint(math.MaxUint64 - 4) // 2^64-5
 
 func polNode(js string) ipld.Node {
@@ -308,7 +339,7 @@ func (ew *envWorld) classValue(e *envelopeParts, f, c string) (ipld.Node, bool, 
 		case "ok2":
 			return str(ew.Q.id.String()), true, nil
 		case "bad":
-			return str("did:web:example.com"), true, nil
+			return str(badDids[ew.rot%len(badDids)]), true, nil
 		case "wrongkind":
 			return basicnode.NewInt(7), true, nil
 		}
@@ -317,7 +348,9 @@ func (ew *envWorld) classValue(e *envelopeParts, f, c string) (ipld.Node, bool, 
 		case "ok2":
 			return str("/a"), true, nil
 		case "bad":
-			return str("nocmd"), true, nil
+			// one of several syntactically invalid commands (no leading slash, trailing slash, upper-case characters of
+			// category Lu and of the Other_Uppercase property), in rotation
+			return str(badCommands[ew.rot%len(badCommands)]), true, nil
 		case "wrongkind":
 			return basicnode.NewInt(7), true, nil
 		}
@@ -326,7 +359,7 @@ func (ew *envWorld) classValue(e *envelopeParts, f, c string) (ipld.Node, bool, 
 		case "ok2":
 			return polNode(`[[">", ".x", 0]]`), true, nil
 		case "bad":
-			return polNode(`[["xor", ".x", 1]]`), true, nil
+			return polNode(badPolicies[ew.rot%len(badPolicies)]), true, nil
 		case "wrongkind":
 			return str("x"), true, nil
 		case "oob":
@@ -361,7 +394,7 @@ func (ew *envWorld) classValue(e *envelopeParts, f, c string) (ipld.Node, bool, 
 		case "ok2":
 			return basicnode.NewBytes([]byte("abcdefghijklmnop")), true, nil
 		case "short":
-			return basicnode.NewBytes([]byte("abcde")), true, nil
+			return basicnode.NewBytes([]byte("abcdefghijk")[:shortNonces[ew.rot%len(shortNonces)]]), true, nil
 		case "empty":
 			return basicnode.NewBytes([]byte{}), true, nil
 		case "wrongkind":
@@ -671,7 +704,17 @@ func envelopeReplay(prop string) replayFn {
 			return err
 		}
 		rep.Extra["algorithms"] = map[string]string{"H": ew.H.alg, "M": ew.M.alg}
+		var runRep func(ew *envWorld, raw json.RawMessage, c envCase) error
 		runCase := func(ew *envWorld, raw json.RawMessage, c envCase) error {
+			for r := 0; r < repsOf(c); r++ {
+				ew.rot = r
+				if err := runRep(ew, raw, c); err != nil {
+					return err
+				}
+			}
+			return nil
+		}
+		runRep = func(ew *envWorld, raw json.RawMessage, c envCase) error {
 			e := ew.base[c.Type].clone()
 			for _, op := range c.Ops {
 				if err := ew.apply(e, op); err != nil {
